@@ -18,18 +18,25 @@ Fixpoint zassoc_inv (m : Z) (l : list (Z * Z)) : option Z :=
   | (k, v) :: t => if Z.eqb m v then Some k else zassoc_inv m t
   end.
 
-Definition P_fromdao (alts : list (Z * Z)) : params :=
-  mkParams (fun k => k) (fun k => zassoc_inv k alts) true true.
-
-(* the code before repo commit 32013a0: FromDAOState had no keep_alive *)
-Definition P_fromdao_old (alts : list (Z * Z)) : params :=
-  mkParams (fun k => k) (fun k => zassoc_inv k alts) true false.
-Definition from_dao_old (alts : list (Z * Z)) (d : heap) (n : nat) (r : addr) (s : st) : option (addr * st) :=
-  walk (P_fromdao_old alts) d (S n) r s.
+(* [dec c]: what user code makes of the DAO columns for the final object of class c (create_from_dao of the mapping of c;
+   for a DAO below an alternatively mapped DAO the base arguments taken from the converted temporary parent);
+   [altbases]: DAO classes below an alternatively mapped DAO -- _build_base_kwargs_for_alternative_parent converts a temporary
+   parent DAO: a mapping object and a parent object are allocated and dropped (2 addresses). *)
+Definition P_fromdao_gen (keepalive : bool) (dec : Z -> list Z -> list Z) (alts : list (Z * Z)) (altbases : list Z) : params :=
+  mkParams (fun k s => (k, match zassoc_inv k alts with Some _ => s | None => dec k s end))
+           (fun k s => match zassoc_inv k alts with Some c => Some (c, dec c s) | None => None end)
+           (fun k => if zmem k altbases then 2 else 0)
+           true keepalive.
+Definition P_fromdao := P_fromdao_gen true.
 
 (* [d] is the DAO heap with addresses 0..n-1 *)
-Definition from_dao (alts : list (Z * Z)) (d : heap) (n : nat) (r : addr) (s : st) : option (addr * st) :=
-  walk (P_fromdao alts) d (S n) r s.
+Definition from_dao (dec : Z -> list Z -> list Z) (alts : list (Z * Z)) (altbases : list Z) (d : heap) (n : nat) (r : addr) (s : st)
+  : option (addr * st) := walk (P_fromdao dec alts altbases) d (S n) r s.
+
+(* the code before repo commit 32013a0: FromDAOState had no keep_alive *)
+Definition P_fromdao_old := P_fromdao_gen false.
+Definition from_dao_old (dec : Z -> list Z -> list Z) (alts : list (Z * Z)) (altbases : list Z) (d : heap) (n : nat) (r : addr) (s : st)
+  : option (addr * st) := walk (P_fromdao_old dec alts altbases) d (S n) r s.
 
 Lemma zassoc_inv_none c l : zmem c (map snd l) = false -> zassoc_inv c l = None.
 Proof.
